@@ -86,7 +86,7 @@ struct TermGen {
     n_word: usize,
     /// share (in 1/8) of IRIs taken from the second namespace
     x_share: usize,
-    /// IRIs of a namespace ending in '#' (terms phase only)
+    /// IRIs of a namespace ending in '#' (a quarter of the documents of every phase)
     hash_ns: bool,
     /// word literals with one inner space
     spaced: bool,
@@ -94,7 +94,7 @@ struct TermGen {
 
 impl TermGen {
     fn for_size(r: &mut Rng, target: usize) -> TermGen {
-        TermGen { n_ent: (target / 3).max(3) + r.below(4), n_pred: r.range(2, 7), n_num: r.range(3, 12), n_word: r.range(2, 6), x_share: r.below(4), hash_ns: false, spaced: r.chance(1, 3) }
+        TermGen { n_ent: (target / 3).max(3) + r.below(4), n_pred: r.range(2, 7), n_num: r.range(3, 12), n_word: r.range(2, 6), x_share: r.below(4), hash_ns: r.chance(1, 4), spaced: r.chance(1, 3) }
     }
     fn ns(&self, r: &mut Rng) -> &'static str {
         if self.hash_ns && r.chance(1, 3) {
@@ -566,8 +566,10 @@ fn gen_doc(r: &mut Rng, fmt: Fmt, o: &DocOpts, tg: &TermGen) -> Doc {
 
 /// Render an explicit triple list (cross-format phase): same triples, every format.
 fn render_triples(r: &mut Rng, fmt: Fmt, triples: &[(String, String, String)], o: &DocOpts) -> Doc {
+    let has_h = triples.iter().any(|t| [&t.0, &t.1, &t.2].iter().any(|x| x.starts_with(NS_H)));
     if fmt == Fmt::RdfXml {
-        let mut parts = vec!["<?xml version=\"1.0\"?>".to_string(), format!("<rdf:RDF xmlns:rdf=\"http://www.w3.org/1999/02/22-rdf-syntax-ns#\" xmlns:k=\"{}\" xmlns:x=\"{}\">", NS_K, NS_X)];
+        let h_decl = if has_h { format!(" xmlns:h=\"{}\"", NS_H) } else { String::new() };
+        let mut parts = vec!["<?xml version=\"1.0\"?>".to_string(), format!("<rdf:RDF xmlns:rdf=\"http://www.w3.org/1999/02/22-rdf-syntax-ns#\" xmlns:k=\"{}\" xmlns:x=\"{}\"{}>", NS_K, NS_X, h_decl)];
         let mut i = 0;
         while i < triples.len() {
             let s = &triples[i].0;
@@ -595,6 +597,9 @@ fn render_triples(r: &mut Rng, fmt: Fmt, triples: &[(String, String, String)], o
     let header = |lines: &mut Vec<String>| {
         lines.push(format!("@prefix k: <{}> .", NS_K));
         lines.push(format!("@prefix x: <{}> .", NS_X));
+        if has_h {
+            lines.push(format!("@prefix h: <{}> .", NS_H));
+        }
     };
     if uses_prefix {
         header(&mut lines);
